@@ -32,11 +32,19 @@ package funcs
 //@ ensures[C12] result == nil && callarg((*PlReg).ReturnAppend, 0, 1).(bool) ==> ncalls((*grok.GrokRegexp).RunWithTypeInfo) == 1 && callres((*grok.GrokRegexp).RunWithTypeInfo, 0, 2) == nil
 //@ ensures[C12] forall j mathint :: 0 <= j && j < ncalls(addKey2PtWithVal) ==> callarg(addKey2PtWithVal, j, 4) == input.KindPtDefault
 //@ ensures[C12] forall j mathint :: 0 <= j && j < ncalls(addKey2PtWithVal) ==> capType(callarg(addKey2PtWithVal, j, 2), callarg(addKey2PtWithVal, j, 3))
+// every capture the engine returned that has a storable type was handed to the point under its own name
+//@ ensures[C12] result == nil && callarg((*PlReg).ReturnAppend, 0, 1).(bool) ==> (forall k string :: dom(callres((*grok.GrokRegexp).RunWithTypeInfo, 0, 0), k) && capStorable(callres((*grok.GrokRegexp).RunWithTypeInfo, 0, 0)[k]) ==> calledwith(addKey2PtWithVal, 1, k, 2, callres((*grok.GrokRegexp).RunWithTypeInfo, 0, 0)[k]))
 //@ loop 1
 //@ invariant[C12] ncalls((*PlReg).ReturnAppend) == 0
+//@ invariant[C12] ncalls((*grok.GrokRegexp).RunWithTypeInfo) == 1 && m == callres((*grok.GrokRegexp).RunWithTypeInfo, 0, 0) && m != nil
+// the capture map is not one of the point's maps (it was made by the engine during this call), so storing captures leaves it alone
+//@ invariant[C12] isPt(ctx.input) ==> thePt(ctx.input).Fields == old(thePt(ctx.input).Fields) && m != thePt(ctx.input).Fields
+//@ invariant[C12] forall k string :: dom(m, k) == atentry(dom(m, k)) && m[k] == atentry(m[k])
+//@ invariant[C12] forall k string :: iterseen(k) && capStorable(m[k]) ==> calledwith(addKey2PtWithVal, 1, k, 2, m[k])
 //@ invariant[C12] forall j mathint :: 0 <= j && j < ncalls(addKey2PtWithVal) ==> callarg(addKey2PtWithVal, j, 4) == input.KindPtDefault
 //@ invariant[C12] forall j mathint :: 0 <= j && j < ncalls(addKey2PtWithVal) ==> capType(callarg(addKey2PtWithVal, j, 2), callarg(addKey2PtWithVal, j, 3))
 
+//@ spec capStorable(v any) bool = v == nil || typeis(v, int64) || typeis(v, float64) || typeis(v, string) || typeis(v, bool)
 // a capture is stored with the type of its Go value
 //@ spec capType(v any, t ast.DType) bool = (v == nil ==> t == ast.Nil) && (typeis(v, int64) ==> t == ast.Int) && (typeis(v, float64) ==> t == ast.Float) && (typeis(v, string) ==> t == ast.String) && (typeis(v, bool) ==> t == ast.Bool)
 
